@@ -8,7 +8,7 @@ import (
 )
 
 var segPool = []string{"a", "b", "c", "d"}
-var specialSegs = []string{".git", ".terraform", "modules", "zzz", "f.txt", "g.txt", "a+b", "ab", "aab", " sp", "-d", ".hid", "ü日", "x(y)", "p|q", "..data", "..x", "a-v2", "a.tf", "a\\b", "bs\\", "caf@E9@", "m@FC@ller.tf", "tab\tx"}
+var specialSegs = []string{".git", ".terraform", "modules", "zzz", "f.txt", "g.txt", "a+b", "ab", "aab", " sp", "-d", ".hid", "ü日", "x(y)", "p|q", "..data", "..x", "a-v2", "a.tf", "a\\b", "bs\\", "caf@E9@", "m@FC@ller.tf", "tab\tx", "nl\nx"}
 var fModes = []int{0o644, 0o600, 0o444, 0o400, 0o755, 0o777, 0o640, 0o000, 0o200}
 var dModes = []int{0o755, 0o700, 0o555, 0o500, 0o777, 0o750}
 var fracs = []int64{0, 400000000, 500000000, 600000000, 499999999, 999999999}
@@ -400,7 +400,7 @@ func genRules(r *simkit.RNG, sc *Scenario, k *knobs) string {
 			continue
 		}
 		for _, s := range strings.Split(n.Path, "/") {
-			if !seen[s] && s != "" && !strings.ContainsAny(s, "\\@\t") {
+			if !seen[s] && s != "" && !strings.ContainsAny(s, "\\@\t\n") {
 				seen[s] = true
 				names = append(names, s)
 			}
@@ -476,7 +476,7 @@ func genRules(r *simkit.RNG, sc *Scenario, k *knobs) string {
 	// a directory rule naming a link to an out-of-tree directory, and a later rule re-including something below it
 	if k.outLinks && r.Chance(1, 3) {
 		for _, n := range sc.Tree {
-			if n.Root == "src" && n.Kind == "link" && strings.Contains(n.Target, "ext/dir") && !strings.Contains(n.Target, "dir/") && !strings.ContainsAny(n.Path, "\\@\t") {
+			if n.Root == "src" && n.Kind == "link" && strings.Contains(n.Target, "ext/dir") && !strings.Contains(n.Target, "dir/") && !strings.ContainsAny(n.Path, "\\@\t\n") {
 				lines = append(lines, n.Path+"/", "!"+n.Path+"/"+simkit.Pick(r, []string{"f", "secret", "sub/g"}))
 				break
 			}
